@@ -25,6 +25,7 @@ import (
 // goroutine closing the transport while the harness inspects it.
 type mxTransport struct {
 	mu     sync.Mutex
+	EndErr error // what Read returns once the script is used up (nil: io.EOF)
 	in     [][]byte
 	Out    []byte
 	closed bool
@@ -60,6 +61,9 @@ func (t *mxTransport) Read(p []byte) (int, error) {
 		t.in = t.in[1:]
 	}
 	if len(t.in) == 0 {
+		if t.EndErr != nil {
+			return 0, t.EndErr
+		}
 		return 0, io.EOF
 	}
 	n := copy(p, t.in[0])
